@@ -377,8 +377,8 @@ def fatal_in_code_under_test(output):
         if not f:
             continue
         path = f.group(1)
-        if "/src/runtime/" in path or "/src/internal/" in path or "/src/sync/" in path:
-            continue
+        if "/src/" in path and "/go" in path.split("/src/")[0] or "/pkg/mod/" in path:
+            continue   # the Go runtime / standard library / third-party modules
         inside = path.startswith(os.path.realpath(REPO) + "/") or path.startswith(REPO + "/")
         if inside and "/zz_" not in path and "/internal/zzverif/" not in path:
             fn = lines[i - 1].strip().split("(")[0] if i else ""
